@@ -262,6 +262,7 @@ def main(argv=None):
     samples = []
     functions_ev = []
     clause_status = {}
+    other_prop = [0]
     for g in gens:
         fstat = {'name': g['function'], 'status': None, 'obligations': len(g['obligations']),
                  'paths': g.get('paths'), 'gen_s': g['gen_s']}
@@ -286,6 +287,12 @@ def main(argv=None):
             fstat['canary'] = 'refuted (ok)'
         all_ok = True
         for ob in g['obligations']:
+            car = ob.get('carries')
+            if car and prop not in [x.strip() for x in car.split(',')]:
+                # a clause that transcribes ANOTHER property (and only that): decided by that
+                # property's own check, not counted or reported here
+                other_prop[0] += 1
+                continue
             n_obl += 1
             st = ob['result']['status']
             ck = clause_key(ob)
@@ -425,6 +432,7 @@ def main(argv=None):
             'recursion depth, memory, threads, signals not modelled'],
         'vacuity': {'canaries': {f['name']: f.get('canary') for f in functions_ev}},
         'known_findings_hit': [k.get('id') for k in known_hits],
+        'clauses_of_other_properties_not_counted': other_prop[0],
         'cross_check': cross, 'samples': samples,
         'explanation': (('all obligations discharged' + ('' if claimed == 'proof' else
                          '; but the obligations cover only part of this property - the rest is decided by the '
